@@ -81,35 +81,44 @@ check('C04', 'proof',
       'dutch_sub1000 (all n < 1000), french_sub1000_partial and italian_sub1000_partial (exact guards + witnesses that are the '
       'recorded findings: plural `cents`, accented `-tré`), cjk_int_zh (all n < 10000), cjk_int_ja_partial (exact guard + '
       'witnesses 二百十八 -> 228). The Lean spell functions are the generators the harness uses; text_number_regex must tokenise '
-      'each numeral into exactly the specification\'s tokens. Unit correspondence (~60k operations) and the pipeline oracle '
-      'for nine cultures.',
-      TB + 'Extraction regexes are tied by the pipeline only; above 1000 (European) / 10000 (CJK) the other cultures have no theorem. '
-      '15 recorded findings (regex / resource data of fr, it, pt, ja and English ordinals).',
+      'each numeral into exactly the specification\'s tokens. round_map_consistent (en, es, fr, pt, it, nl: every RoundNumberMap '
+      'word that is also a cardinal/ordinal key has the same value there; round_map_consistent_de_partial + '
+      'german_milliard_witness). Unit correspondence (~60k operations); pipeline oracle for nine cultures incl. scale words up '
+      'to 10^12 with each culture\'s apocope/agreement rules and ordinals of es fr pt de it nl; every key of the Cardinal/Ordinal '
+      'maps read from Patterns/<Lang>-Numbers.yaml AND the module asked alone (1571 keys, contract of 237 non-numerals committed).',
+      TB + 'Extraction regexes are tied by the pipeline only; above 1000 (European) / 10000 (CJK) the other cultures have no theorem '
+      '(pipeline families only). 17 recorded findings (regex / resource data of fr, it, pt, ja, es, English ordinals).',
       'Lean 4 proof (induction for English, kernel evaluation over full ranges for the other cultures) + regenerated maps + unit/pipeline correspondence',
       'DESIGN.md §3 C04')
 
 check('C06', 'proof',
-      'Lean model of match_to_date / generate_dates + validity guard / luis_date / _date_time_resolution. Proved for every layout '
-      'group decoding, every table spelling, every reference: abs_date (valid date, 1900-2099 -> exactly [YYYY-MM-DD, date, '
-      'YYYY-MM-DD], independent of the reference: abs_date_reference_independent), two_digit_year (interval read from the '
-      'regenerated pivots) + gap + witness 3/5/30 -> 0030, invalid_date_not_resolved; table facts re-decided by the kernel on '
-      'the regenerated month/day maps of 8 cultures. Tie: unit correspondence (format on all 73,049 dates, generate_dates '
-      'grid, ~7.8k real match_to_date calls in 8 cultures) and a pipeline over the committed layout contract '
-      'contracts/C06.json x references 1950..2090 x carrier sentences.',
-      TB + 'Regex engine, extractors, get_year_from_text and ChineseDateParser are not modelled (pipeline only); thorough covers '
-      'every date and every layout but not their full product.',
-      'Lean 4 proof about a faithful model + regenerated tables + unit/pipeline correspondence', 'DESIGN.md §3 C06')
+      'Lean model of match_to_date (BaseDateParser and ChineseDateParser), generate_dates + validity guard, luis_date/format_date, '
+      '_date_time_resolution. Proved for every layout group decoding, table spelling and reference: abs_date / '
+      'abs_date_reference_independent (valid date 1900-2099 -> exactly [YYYY-MM-DD, date, YYYY-MM-DD]), abs_date_zh (Chinese '
+      'digit / hanzi month-day keys, digit or converted hanzi year), two_digit_year + two_digit_year_gap + witness (3/5/30 -> '
+      '0030), invalid_date_not_resolved; table facts re-decided each run on the regenerated maps (month_map_*/day_map_* for 8 '
+      'cultures, english_month_names, zh_tables, pivots_sane).',
+      TB + 'Regex engine, extractors, get_year_from_text and convert_chinese_year_to_number are model inputs (pipeline only). '
+      'Two-digit years are outside the property (gap 30-39 -> 00YY proved and replayed as an observation). Thorough covers every '
+      'date and every contract layout, not their full product.',
+      'Lean 4 proof about a faithful model + tables regenerated from the parser configurations + unit correspondence (format on '
+      'all 73,049 dates, generate_dates grid, ~14k real match_to_date calls in 9 cultures) + pipeline over the committed layout '
+      'contract contracts/C06.json x references 1950-2090', 'DESIGN.md §3 C06')
 
 check('C07', 'proof',
-      'Lean model of match_to_time (incl. Python truthiness; both variants of the hour-0 test), English adjust_by_prefix/suffix, '
-      'DateTimeFormatUtil incl. to_pm/all_str_to_pm, _resolve_ampm, merge_date_and_time. Proved for all h<24, m,s<60, any '
-      'reference/config: clock24, clock12, ambiguous_two_readings (exactly two values twelve hours apart), date_at_time '
-      '(timex = date timex ++ time timex, one or two readings); regression witness clock24_hour0_unresolved for the pre-fix '
-      'code. Tie: format util over full ranges, ~5k real match_to_time calls, resolution and merge unit correspondence; '
-      'pipeline: all 86,400 HH:MM:SS in thorough, 12-hour spellings x am/pm/a.m./p.m./none, <date> at <time> x references.',
-      TB + 'Group values and desc/prefix/suffix regex outcomes are model inputs; other cultures\' adjust_by_prefix/adjust_by_suffix '
-      'are not modelled. Defect hour0-unresolved found by this check and fixed (5938cc07e).',
-      'Lean 4 proof about a faithful model + unit/pipeline correspondence', 'DESIGN.md §3 C07')
+      'Lean model of match_to_time (both variants of the hour-0 test), adjust_by_prefix/adjust_by_suffix of all 8 BaseTimeParser '
+      'cultures, ChineseTimeParser decode/pack, DateTimeFormatUtil incl. to_pm/all_str_to_pm, _resolve_ampm, merge_date_and_time. '
+      'Proved for all h<24, m,s<60, any reference: clock24, clock12, ambiguous_two_readings, date_at_time (+_unambiguous/_ambiguous), '
+      'clock_cultures / date_at_time_cultures / designator_cultures (every culture configuration; phrase designators h am -> h mod '
+      '12, h pm -> h mod 12 + 12), clock24_zh; regression witnesses clock24_hour0_unresolved, afternoon_12_both_readings, '
+      'zh_ampm_any_hour_witness for the pre-fix code.',
+      TB + 'Group values and regex outcomes (desc/prefix/suffix classification, German/Dutch token regexes, PM/AMTimeRegex of '
+      'merge_date_and_time) are model inputs: regex-level changes are caught by the pipeline only. handle_less (Chinese) not '
+      'modelled. Defects found and fixed: 5938cc07e, 2534fc60f, 1a38b64a7, 5092b5407, a2b747947; two recorded: date-at-12-word, '
+      'it-midnight-attached.',
+      'Lean 4 proof about a faithful model + unit correspondence (format util over full ranges, ~16k real match_to_time calls in 8 '
+      'cultures, 4.4k ChineseTimeParser.parse, resolution, merge) + pipeline over contracts/C07.json (24-hour, am/pm designators, '
+      'word times alone and attached to dates, all 86,400 HH:MM:SS in thorough)', 'DESIGN.md §3 C07')
 
 check('C08', 'proof',
       'Lean theorems for EVERY reference datetime (valid date 0001..9999, no other bound) and every N about a '
